@@ -206,15 +206,97 @@ pub fn conformance_totals(prop: &'static str, formats: &[Format], tier: Tier, cf
         println!("  {}: {} inputs, {} runs, {:.1}s", fam.name(), fam.count(), t.evals, t.wall_s);
         tot.merge(t);
     }
+    // the constructors taking a path: the first record-shape family written to real files
+    if let Some(fam) = fams.iter().find(|f| matches!(f, Family::Recs(_))) {
+        let dir = std::path::PathBuf::from(format!("{}/../../.target/tmp/paths-{}-{}", env!("CARGO_MANIFEST_DIR"), prop, std::process::id()));
+        std::fs::create_dir_all(&dir).expect("scratch directory for from_path");
+        set_describe(None);
+        let t = par_sweep(fam.count(), 16, |idx, l| {
+            let data = fam.get(idx);
+            let rs = reference(format, &data);
+            let nontrivial = (cfg.nontrivial)(&rs);
+            let path = dir.join(format!("{}.txt", idx));
+            std::fs::write(&path, &data).expect("write scratch input");
+            for cap in [None, Some(3usize), Some(data.len().max(3))] {
+                let run = path_run(format, &path, cap);
+                l.evals += 1;
+                l.count("transitions", run.api_calls);
+                l.count("runs_from_path", 1);
+                if nontrivial {
+                    l.nontrivial += 1;
+                }
+                let c = StreamCheck { positions: cfg.positions, err_fields: cfg.err_fields, owned: false };
+                if let Err((sig, why)) = check_stream(&run, &rs, &c) {
+                    l.violation(Violation {
+                        property: prop.into(),
+                        sig: format!("{}|from_path|{}", format.name(), sig),
+                        detail: format!("input {:?} read with from_path{}: {}", esc(&data), cap.map_or(String::new(), |c| format!("_with_capacity({})", c)), why),
+                        weight: (data.len() * 100_000) as u64,
+                        replay: replay_json("next", &data, &Env::plain(format, cap.unwrap_or(65536)), json!({"driver": "Next", "note": "found through from_path on a real file; the replay uses the scripted source", "observed": show_run(&run)})),
+                    });
+                }
+            }
+            std::fs::remove_file(&path).ok();
+        });
+        std::fs::remove_dir_all(&dir).ok();
+        println!("  {} through from_path / from_path_with_capacity: {} runs, {:.1}s", fam.name(), t.evals, t.wall_s);
+        tot.merge(t);
+    }
     }
     let rule = format!(
-        "every input of [{}] x every capacity 3..len+2 and 64 KiB x chunkings (all/1/alt 1-3{}; all compositions for len<=6) x drivers next()/records(); oracle = independent reference parser ({}); non-trivial = {}",
+        "every input of [{}] x every capacity 3..len+2 and 64 KiB x chunkings (all/1/alt 1-3{}; all compositions for len<=6) x drivers next()/records(); the record-shape family also written to real files and read through from_path / from_path_with_capacity(3 | len); oracle = independent reference parser ({}); non-trivial = {}",
         names.join("; "),
         if tier == Tier::Thorough { "/2/3" } else { "" },
         cfg.what,
         "runs on inputs for which the checked clause is not vacuous (see nontrivial rule in DESIGN.md section 6)"
     );
     (tot, rule)
+}
+
+/// `next()` until the stream ended and two further calls were made, on a reader built from a path
+fn path_run(format: Format, path: &std::path::Path, cap: Option<usize>) -> NextRun {
+    use std::panic::{catch_unwind, AssertUnwindSafe};
+    let mut items = Vec::new();
+    let mut api_calls = 0;
+    macro_rules! go {
+        ($m:ident, $conv_rec:ident, $conv_err:ident, $pos:expr) => {{
+            let mut r = match cap {
+                None => seq_io::$m::Reader::from_path(path).expect("open scratch input"),
+                Some(c) => seq_io::$m::Reader::from_path_with_capacity(path, c).expect("open scratch input"),
+            };
+            let mut after_end = 0;
+            while items.len() < 64 {
+                let it = match catch_unwind(AssertUnwindSafe(|| match r.next() {
+                    None => Item::End,
+                    Some(Ok(rec)) => Item::Rec($conv_rec(&rec)),
+                    Some(Err(e)) => Item::Err($conv_err(e)),
+                })) {
+                    Ok(i) => i,
+                    Err(e) => Item::Panic(panic_msg(e)),
+                };
+                api_calls += 1;
+                #[allow(clippy::redundant_closure_call)]
+                let pos: Option<(u64, u64)> = ($pos)(&r);
+                let stop = matches!(it, Item::Panic(_));
+                let terminal = !matches!(it, Item::Rec(_));
+                items.push((it, pos));
+                if stop {
+                    break;
+                }
+                if terminal || after_end > 0 {
+                    after_end += 1;
+                    if after_end == 3 {
+                        break;
+                    }
+                }
+            }
+        }};
+    }
+    match format {
+        Format::Fasta => go!(fasta, fa_rec, fa_err, |r: &seq_io::fasta::Reader<std::fs::File>| r.position().map(|p| (p.line(), p.byte()))),
+        Format::Fastq => go!(fastq, fq_rec, fq_err, |r: &seq_io::fastq::Reader<std::fs::File>| Some((r.position().line(), r.position().byte()))),
+    }
+    NextRun { items, grow_calls: vec![], final_cap: 0, api_calls }
 }
 
 fn has_content(rs: &refmodel::RefStream) -> bool {
